@@ -865,8 +865,11 @@ def mutants(tree):
                "                    res[s][cond[s]] = 0.0\n                    dres[s][:, cond[s]] = 0.0\n",
                "                    res[s][cond[s]] = 0.0\n                dres[s][:, cond[s]] = 0.0\n",
                expect="stale-loop-var"),
-        Mutant("v2 POL: derivative cut only under the spin-scaled per-spin mask (not a superset of the value mask)", XE2,
-               "df[cond | scond, :] = 0.0", "df[cond, :] = 0.0", expect="cutoff-pair"),
+        Mutant("v2 POL/NPOL: derivative cut per spin channel, value on the total density", XE2,
+               "                df[..., scond, :] = 0.0\n", "                df[cond, :] = 0.0\n", expect="cutoff-pair"),
+        Mutant("v2 POL/NPOL: derivative additionally cut per spin channel where the value is kept", XE2,
+               "                df[..., scond, :] = 0.0\n", "                df[cond | scond, :] = 0.0\n",
+               expect="cutoff-pair"),
         Mutant("zero only res under rhocut", XE, "                res[..., cond] = 0.0\n                dres[..., cond] = 0.0\n",
                "                res[..., cond] = 0.0\n", expect="cutoff-pair"),
         Mutant("zero only f under rhocut (v2 SEP)", XE2, "                f[cond] = 0.0\n                df[cond] = 0.0\n", "                f[cond] = 0.0\n",
